@@ -37,8 +37,9 @@ type ent struct {
 
 // one step of a history, replayable
 type stepRec struct {
-	Commits []commitRec `json:"commits,omitempty"`
-	Index   *indexRec   `json:"index,omitempty"`
+	Commits   []commitRec `json:"commits,omitempty"`
+	Index     *indexRec   `json:"index,omitempty"`
+	Reordered bool        `json:"reordered,omitempty"` // this run lists the previous run's branches in another order
 }
 type commitRec struct {
 	Branch string         `json:"branch"`
@@ -58,7 +59,9 @@ type history struct {
 	Steps    []stepRec `json:"steps"`
 }
 
-var allPaths = []string{"a.txt", "b.txt", "dir/c.txt", "dir/sub/d.go", "e", "dir/f.txt", "z/y/x.c", "e2/inner", "README", "dir/g"}
+// paths include names with 2-, 3- and 4-byte UTF-8 characters: their length in bytes and in runes differs
+var allPaths = []string{"a.txt", "b.txt", "dir/c.txt", "dir/sub/d.go", "e", "dir/f.txt", "z/y/x.c", "e2/inner", "README", "dir/g",
+	"ä", "docs/übersicht.md", "日本語/ファイル.go", "dir/𝒳.txt"}
 var allBranches = []string{"main", "dev", "rel"}
 
 func baseContents() []string {
@@ -167,6 +170,13 @@ func genHistory(r *gen.Rand, f gen.Flags) history {
 		}
 		if r.Chance(1, 10) {
 			indexed = pickIndexed(r, branches) // branch set may change: must fall back
+		} else if r.Chance(1, 5) {
+			// the same branches listed in another order (HEAD stays first): a delta run must fall back as well, the
+			// documents of the old shards carry branch bit masks assigned under the old order
+			if re, ok := reorder(r, indexed); ok {
+				indexed = re
+				st.Reordered = true
+			}
 		}
 		thr := uint64(0)
 		if r.Chance(1, 5) {
@@ -280,6 +290,22 @@ func correlate(r *gen.Rand, branches []string, trees map[string]map[string]ent) 
 	return "pair:" + a + "+" + b
 }
 
+// reorder permutes the non-HEAD part of a branch list; ok is false when there is nothing to permute
+func reorder(r *gen.Rand, brs []string) ([]string, bool) {
+	out := append([]string{}, brs...)
+	lo := 0
+	if len(out) > 0 && out[0] == "HEAD" {
+		lo = 1
+	}
+	if len(out)-lo < 2 {
+		return out, false
+	}
+	i := lo + r.Intn(len(out)-lo)
+	j := lo + (i-lo+1+r.Intn(len(out)-lo-1))%(len(out)-lo)
+	out[i], out[j] = out[j], out[i]
+	return out, true
+}
+
 // genSpecial generates a short history outside the Lean model: a path changing between file and submodule link
 // ("gitlink"), or a repository with an unchanged .sourcegraph/ignore file ("ignore"), or one whose ignore file
 // changes ("ignore-change": the documented fall-back to a normal build).
@@ -293,6 +319,55 @@ func genSpecial(r *gen.Rand, kind string) history {
 	idx := func(delta bool) *indexRec { return &indexRec{Delta: delta, Branches: []string{"HEAD"}} }
 	base := map[string]ent{"a.txt": file(r.Intn(3)), "dir/c.txt": file(r.Intn(3))}
 	switch kind {
+	case "branch-reorder":
+		// branches with different content; a delta run (with or without new commits) lists them in another order
+		h.Kind = "model"
+		trees := map[string]map[string]ent{
+			"main": {"a.txt": file(0), "only-main.txt": file(1), "shared.txt": file(2)},
+			"dev":  {"a.txt": file(3), "only-dev.txt": file(4), "shared.txt": file(2)},
+			"rel":  {"a.txt": file(5), "only-rel.txt": file(6)},
+		}
+		var cs []commitRec
+		for _, b := range []string{"main", "dev", "rel"} {
+			cs = append(cs, commitRec{Branch: b, Tree: trees[b], Why: "init"})
+		}
+		order := []string{"HEAD", "main", "dev", "rel"}
+		if r.Bool() {
+			order = order[1:]
+		}
+		re, _ := reorder(r, order)
+		st2 := stepRec{Index: &indexRec{Delta: true, Branches: re}, Reordered: true}
+		if r.Bool() {
+			t := cloneTree(trees["dev"])
+			t["new-dev.txt"] = file(7)
+			st2.Commits = []commitRec{{Branch: "dev", Tree: t, Why: "add"}}
+		}
+		re2, _ := reorder(r, re)
+		h.Steps = []stepRec{
+			{Commits: cs, Index: &indexRec{Branches: order}},
+			st2,
+			{Index: &indexRec{Delta: true, Branches: re2}, Reordered: true},
+		}
+	case "unicode":
+		// only paths with multi-byte characters change between the runs: every tombstone is such a path
+		h.Kind = "model"
+		names := []string{"ä", "docs/übersicht.md", "日本語/ファイル.go", "dir/𝒳.txt", "é/ü.c"}
+		gen.Shuffle(r, names)
+		t0 := map[string]ent{"a.txt": file(0), "dir/c.txt": file(1)}
+		for i, n := range names {
+			t0[n] = file(i % 4)
+		}
+		t1 := cloneTree(t0)
+		t1[names[0]] = file(5) // modified
+		delete(t1, names[1])   // deleted
+		t2 := cloneTree(t1)
+		t2[names[2]] = file(6)
+		t2[names[1]] = file(7) // re-added
+		h.Steps = []stepRec{
+			{Commits: []commitRec{{Branch: "main", Tree: t0, Why: "init"}}, Index: idx(false)},
+			{Commits: []commitRec{{Branch: "main", Tree: t1, Why: "unicode-modify,unicode-delete"}}, Index: idx(true)},
+			{Commits: []commitRec{{Branch: "main", Tree: t2, Why: "unicode-modify,unicode-add"}}, Index: idx(true)},
+		}
 	case "head-not-first":
 		dev := map[string]ent{"a.txt": file(3), "dev-only.txt": file(4)}
 		h.Steps = []stepRec{
@@ -638,6 +713,9 @@ func (rn *runner) run(h history, id string) {
 			continue
 		}
 		ix := st.Index
+		if st.Reordered {
+			rn.w.Count("branch-list:reordered-before-run", 1)
+		}
 		if ix.Repack {
 			g.Repack()
 			rn.w.Count("repacked-before-run", 1)
@@ -715,8 +793,15 @@ func (rn *runner) run(h history, id string) {
 			fstr = append(fstr, f.s)
 		}
 		var ch []int
+		nonASCII := false
 		for _, c := range prep.Changed {
 			ch = append(ch, rn.paths.ID(c))
+			if len([]rune(c)) != len(c) {
+				nonASCII = true
+			}
+		}
+		if nonASCII {
+			rn.w.Count("run-tombstones-non-ascii-path", 1)
 		}
 		sort.Ints(ch)
 		shards, _ := filepath.Glob(filepath.Join(indexDir, "*.zoekt"))
@@ -942,7 +1027,7 @@ func main() {
 	}
 
 	r := gen.NewRand(f.Seed)
-	n := f.N(8, 90)
+	n := f.N(5, 90)
 	t0 := time.Now()
 	if os.Getenv("C13_ONLY_SPECIAL") == "" {
 		for i := 0; i < n; i++ {
@@ -960,7 +1045,7 @@ func main() {
 		}
 	}
 	for i := 0; i < f.N(1, 10); i++ {
-		for _, kind := range []string{"gitlink", "ignore", "ignore-change", "head-not-first"} {
+		for _, kind := range []string{"gitlink", "ignore", "ignore-change", "head-not-first", "branch-reorder", "unicode"} {
 			rn.run(genSpecial(r.Fork(), kind), kind)
 		}
 	}
